@@ -7,7 +7,7 @@ import tempfile
 from core import nats, natlists, hx, exc_kind, safe_check
 
 PROPS = ('GambitV.Props.C20', 'GambitV.C20')
-TIE = []
+TIE = [('GambitV.Tie.PyCheckIndex', 'GambitV.Tie.Py')]
 RULE = ('(collection content, container type in {SignatureArray, SignatureList, HDF5Signatures}, index expression). Exhaustive: every '
         'slice with start/stop/step in -R..R ∪ {None} over lengths 0..L (R,L = 4,4 quick / 7,6 thorough); all integer index lists up to '
         'length 3/4 with entries in -(n+1)..n; all boolean masks of length n-1..n+1. Random: NumPy integer dtypes, tuples/lists/arrays, '
@@ -203,6 +203,14 @@ def check(ctx, case):
 		os.remove(path)
 		case['_err'] = False
 		return [], pf
+	if kind == 'chk':
+		# AdvancedIndexingMixin._check_index on a collection of n signatures, against the definition generated from the current source (tie T)
+		sl = make_container('list', [[1]] * case['n'])
+		try:
+			real = str(int(sl._check_index(case['i'])))
+		except IndexError:
+			real = '!IndexError'
+		return [f'pyg.chk {case["n"]} {case["i"]} {real}'], []
 	if kind == 'sliceidx':
 		n, a, b, c = case['n'], case['a'], case['b'], case['c']
 		s, e, st = slice(a, b, c).indices(n)
@@ -306,6 +314,9 @@ def run(ctx):
 		fixed = {n: contents(rng, n) for n in range(0, L + 1)}
 		vals = [None] + list(range(-R, R + 1))
 		steps = [None] + [s for s in range(-R, R + 1)]
+		for n in range(0, L + 1):
+			for i in range(-2 * L - 2, 2 * L + 3):
+				sub({'kind': 'chk', 'n': n, 'i': i}, 'exh-check-index')
 		# exhaustive slices (step 0 included: must raise ValueError)
 		for n in range(0, L + 1):
 			for a in vals:
